@@ -144,7 +144,11 @@ def bytes_facts(repo):
             if not ok:
                 raise ExtractError(f"{rel}: exponent range test is `{_src(t)}`")
             bound = t.values[1].comparators[0].value
-    steps.append("range-test" if bound is not None else "MISSING:range-test")
+    if bound is None:
+        # without the test the model (which rejects out-of-range exponents before converting) is out of date, and its
+        # evaluation of huge exponents would not even terminate
+        raise ExtractError(f"{rel}: exponent range test `abs(decimal_value.adjusted()) > <bound>` not found in convert_to_bytes")
+    steps.append("range-test")
     # order of the tests on the parsed value
     order = [k for k in ("decimal_value = Decimal(value)", "decimal_value.is_finite()", "decimal_value.adjusted()",
                          "Fraction(decimal_value)", "exact_size.denominator != 1", "size = int(exact_size)") if k in src]
